@@ -776,6 +776,10 @@ def c10(ctx):
     p = subprocess.run([sys.executable, os.path.join(VERIF, 'bin', 'genpeggrammar.py')], capture_output=True, text=True, env=L.GOENV)
     if p.returncode != 0:
         raise RuntimeError('genpeggrammar failed: ' + (p.stderr or p.stdout)[-1500:])
+    # … and the case table the builder model searches (unicode.CaseRanges of the Go library the front end is linked with)
+    p = subprocess.run([sys.executable, os.path.join(VERIF, 'bin', 'gencasetable.py')], capture_output=True, text=True, env=L.GOENV)
+    if p.returncode != 0:
+        raise RuntimeError('gencasetable failed: ' + (p.stderr or p.stdout)[-1500:])
     ctx.proofs(['PegVerif.Props.C10Escapes', 'PegVerif.Props.C10'])
     T.lake_build(['pegmodel'])
     js = os.path.join(L.scratch('tfront-'), 'tfront.json')
@@ -796,7 +800,7 @@ def c10(ctx):
         'evaluations': int(c.get('well', 0)) + int(c.get('malformed', 0)) + int(c.get('probes', 0)) + nimp,
         'distinct_nontrivial': int(c.get('well', 0)),
         'rule': 'abstract grammars rendered in every spelling variant (quote style, every escape spelling in every character position, both arrows, # and // comments, spacing, CR/LF/CRLF, redundant parentheses, '
-                'imports single/aliased/grouped, header comments) compared REAL vs denote (spec); the import specs of the GENERATED file (go/ast) of import streams — plain, aliased, grouped, duplicates of and aliases for the runtime\'s own imports, under all option sets — contain every import of the grammar with its alias and equal the header model; and REAL vs the model front end (PEG semantics of the regenerated peg.peg + builder model); malformed stream '
+                'imports single/aliased/grouped, header comments; in case-insensitive positions every kind of character: cased / title case / uncased, ASCII / outside ASCII incl. beyond the BMP, raw / escaped) compared REAL vs denote (spec); strings.ToLower/ToUpper of EVERY code point real vs model (and vs the spec\'s own case forms);  the import specs of the GENERATED file (go/ast) of import streams — plain, aliased, grouped, duplicates of and aliases for the runtime\'s own imports, under all option sets — contain every import of the grammar with its alias and equal the header model; and REAL vs the model front end (PEG semantics of the regenerated peg.peg + builder model); malformed stream '
                 '(truncate/delete/insert/swap/random bytes/hand-written shapes): real must reject or agree with the model, never panic; non-trivial = well-formed spelled texts',
         'samples': [(r.get('probe_results') or [{}])[0].get('text')], 'input_distribution': r.get('distribution'), 'counts': c,
     })
